@@ -381,6 +381,82 @@ func runC02(c *kit.Ctx) {
 			}
 			good = good && nameOK
 		}
+		if !good {
+			// the append form: ra = append(ra, &pb.RegionAction{...}) and m.regions = append(m.regions, r)
+			// in the same iteration, both slices empty before the loop
+			var raApp, regApp *ssa.Call
+			nRa, nReg := 0, 0
+			for _, ci := range kit.Calls(mtp, "builtin.append") {
+				call := ci.(*ssa.Call)
+				t := call.Call.Args[0].Type().String()
+				switch {
+				case strings.Contains(t, "pb.RegionAction"):
+					raApp = call
+					nRa++
+				case strings.HasSuffix(t, "hrpc.RegionInfo"):
+					regApp = call
+					nReg++
+				}
+			}
+			emptyBefore := func(app *ssa.Call) bool {
+				// the appended-to value is a phi/load whose only other source is make(T, 0, n) or nil
+				seen := map[ssa.Value]bool{}
+				ok := true
+				var walk func(v ssa.Value)
+				walk = func(v ssa.Value) {
+					v = kit.Strip(v)
+					if seen[v] {
+						return
+					}
+					seen[v] = true
+					switch x := v.(type) {
+					case *ssa.Phi:
+						for _, e := range x.Edges {
+							walk(e)
+						}
+					case *ssa.MakeSlice:
+						if k, isC := kit.ConstInt(x.Len); !isC || k != 0 {
+							ok = false
+						}
+					case *ssa.Const:
+						if !x.IsNil() {
+							ok = false
+						}
+					case *ssa.Call:
+						if x != app {
+							ok = false
+						}
+					case *ssa.UnOp:
+						// load of the field: every store to it in this function is the append result or an empty make
+						if _, fv := kit.FieldRead(x); fv == regionsF {
+							kit.Instrs(mtp, func(in ssa.Instruction) {
+								if st, isSt := in.(*ssa.Store); isSt {
+									if fa, isFa := st.Addr.(*ssa.FieldAddr); isFa && kit.FieldVar(fa.X.Type(), fa.Field) == regionsF {
+										walk(st.Val)
+									}
+								}
+							})
+						} else {
+							ok = false
+						}
+					default:
+						ok = false
+					}
+				}
+				walk(app.Call.Args[0])
+				return ok
+			}
+			if nRa == 1 && nReg == 1 && raApp.Block() == regApp.Block() && emptyBefore(raApp) && emptyBefore(regApp) {
+				if els := elemsOfVariadic(regApp.Call.Args[1]); len(els) == 1 {
+					r := kit.Strip(els[0])
+					for _, call := range kit.Calls(mtp, hrpcRI+"Name") {
+						if call.Common().Value == r && call.(ssa.Instruction).Block() == regApp.Block() {
+							good = true
+						}
+					}
+				}
+			}
+		}
 		c.Check(good, mtp, "regions-aligned", mtp.Pos(), "ra[i] and m.regions[i] are written in the same iteration with the same i for the same map key r (whose Name() goes on the wire)", "the order of region actions on the wire and m.regions can diverge: a region exception is delivered to the calls of another region")
 		// delivery: c.Region() == m.regions[i]
 		okDel := false
